@@ -8,6 +8,7 @@ import z3
 
 from . import theory as T
 from . import folds as FO
+from . import lists as LS
 from .values import (SV, Ver, DictVal, SetVal, ListVal, PObj, ItemsView, AssignVal, Closure, BoundMethod, ClassRef,
                      BuiltinClass, Builtin, ModuleRef, SuperRef, SeqIter, Unsupported, PathInfeasible, VerifBug,
                      PyExc, is_num, zreal, zint, is_intlike)
@@ -40,6 +41,8 @@ def bi_len(eng, args, kwargs, fr):
         return len(v.items)
     if isinstance(v, SV) and v.t == "key":
         return SV(z3.Length(v.e), "int")
+    if isinstance(v, PObj) and getattr(v, "lstore", None) is not None:
+        return SV(eng.lver_of(v).length, "int")
     if isinstance(v, (DictVal, PObj)):
         return SV(FO.fold(eng, eng.store_of(v), "size"), "int")
     if isinstance(v, SetVal):
@@ -75,6 +78,10 @@ def class_name_of(eng, v):
         return "dict"
     if isinstance(v, AssignVal):
         return v.container
+    if isinstance(v, LS.ResIter):
+        return "list"
+    if isinstance(v, SV) and v.t == "rid":
+        return "AnnealResult"
     if isinstance(v, SV) and v.t == "int":
         return "int"
     if isinstance(v, SV) and v.t == "bool":
@@ -130,6 +137,10 @@ def _isinst(eng, v, c):
 
 def bi_isinstance(eng, args, kwargs, fr):
     v, c = args
+    if isinstance(v, SV) and v.t == "slice":
+        return getattr(c, "name", None) == "slice"
+    if getattr(c, "name", None) == "slice":
+        return False
     if isinstance(v, SV) and v.t == "real" and isinstance(c, tuple) and \
        {getattr(x, "name", None) for x in c} >= {"int", "float"}:
         return True
@@ -371,6 +382,11 @@ def bi_warn(eng, args, kwargs, fr):
     return None
 
 
+def bi_opaque(eng, args, kwargs, fr):
+    from .values import Opaque
+    return Opaque("result of a call on an opaque value")
+
+
 def bi_warnings_warn(eng, args, kwargs, fr):
     eng.warned.append(args[0] if args else "")
     return None
@@ -448,6 +464,8 @@ def bi_map(eng, args, kwargs, fr):
 
 def bi_filter(eng, args, kwargs, fr):
     f, seq = args
+    if isinstance(seq, LS.ResIter) or (isinstance(seq, PObj) and getattr(seq, "lstore", None) is not None):
+        return LS.ResIter()       # some results drawn from seq (the predicate itself is not modelled)
     c = eng.concrete_iter(seq)
     if c is not None:
         out = []
@@ -650,7 +668,97 @@ def call_base_method(eng, recv, base, name, args, kwargs, fr):
             t = eng.contains(holder, args[0])
             return t if isinstance(t, bool) else SV(t, "bool")
         raise Unsupported("dict.%s" % name)
+    if base == "list":
+        return list_base_method(eng, recv, name, args, kwargs)
     raise Unsupported("%s.%s" % (base, name))
+
+
+def _rid_of(eng, v):
+    if isinstance(v, SV) and v.t == "rid":
+        return v.e
+    raise Unsupported("list element is not a result")
+
+
+def list_base_method(eng, recv, name, args, kwargs):
+    """trusted specification of the builtin list methods on the multiset abstraction (vf/qvc/lists.py)"""
+    if not isinstance(recv, PObj) or getattr(recv, "lstore", None) is None:
+        raise Unsupported("list base method on a non-list object")
+    h = recv.lstore
+    ver = eng.lver_of(recv)
+    if name == "__init__":
+        if args or kwargs:
+            raise Unsupported("list.__init__ with arguments")
+        return None
+    if name in ("append", "insert"):
+        r = _rid_of(eng, args[-1])
+        eng.write_lstore(h, LS.append(eng, ver, r))
+        return None
+    if name == "clear":
+        eng.write_lstore(h, LS.empty(eng))
+        return None
+    if name == "remove":
+        x = _rid_of(eng, args[0])
+        e = LS.new_rid(eng, "removed")
+        present = z3.And(z3.Select(ver.cnt, e.e) >= 1, LS.req(e.e, x), ver.length >= 1)
+        # list.remove raises ValueError when no element equals x
+        if not eng.branch(present):
+            raise PyExc("ValueError", "list.remove(x): x not in list")
+        eng.write_lstore(h, LS.remove_one(eng, ver, e.e))
+        return None
+    if name == "pop":
+        i = args[0] if args else -1
+        ok = z3.And(ver.length >= 1, zint(i) < ver.length, zint(i) >= -ver.length)
+        if not eng.branch(ok):
+            raise PyExc("IndexError", "pop index out of range")
+        e = LS.new_rid(eng, "popped")
+        eng.assume(z3.Select(ver.cnt, e.e) >= 1)
+        eng.write_lstore(h, LS.remove_one(eng, ver, e.e))
+        return e
+    if name in ("extend", "__iadd__"):
+        o = args[0]
+        if isinstance(o, PObj) and getattr(o, "lstore", None) is not None:
+            eng.write_lstore(h, LS.concat(eng, ver, eng.lver_of(o)))
+            return recv if name == "__iadd__" else None
+        raise Unsupported("list.extend with a non-list")
+    if name in ("__add__", "__mul__"):
+        return LS.ResIter()
+    if name == "__getitem__":
+        i = args[0]
+        if isinstance(i, SV) and i.t == "slice":
+            return LS.ResIter()
+        ok = z3.And(zint(i) < ver.length, zint(i) >= -ver.length)
+        if not eng.branch(ok):
+            raise PyExc("IndexError", "list index out of range")
+        e = LS.new_rid(eng, "item")
+        eng.assume(z3.Select(ver.cnt, e.e) >= 1)
+        return e
+    if name == "__setitem__":
+        i, v = args
+        if isinstance(i, SV) and i.t == "slice":
+            eng.write_lstore(h, LS.base(eng, "sliceassigned"))     # arbitrary new contents
+            return None
+        ok = z3.And(zint(i) < ver.length, zint(i) >= -ver.length)
+        if not eng.branch(ok):
+            raise PyExc("IndexError", "list assignment index out of range")
+        e = LS.new_rid(eng, "replaced")
+        eng.assume(z3.Select(ver.cnt, e.e) >= 1)
+        eng.write_lstore(h, LS.append(eng, LS.remove_one(eng, ver, e.e), _rid_of(eng, v)))
+        return None
+    if name == "__delitem__":
+        i = args[0]
+        if isinstance(i, SV) and i.t == "slice":
+            eng.write_lstore(h, LS.base(eng, "slicedeleted"))
+            return None
+        ok = z3.And(zint(i) < ver.length, zint(i) >= -ver.length)
+        if not eng.branch(ok):
+            raise PyExc("IndexError", "list assignment index out of range")
+        e = LS.new_rid(eng, "deleted")
+        eng.assume(z3.Select(ver.cnt, e.e) >= 1)
+        eng.write_lstore(h, LS.remove_one(eng, ver, e.e))
+        return None
+    if name in ("sort", "reverse"):
+        return None           # a permutation: the multiset is unchanged
+    raise Unsupported("list.%s" % name)
 
 
 # ----------------------------------------------------------------------------------------------- comprehensions
